@@ -208,11 +208,11 @@ func checkC11(p *Prog, r *Report) {
 	r.Stat("O3.functions with a write-through summary", nSum)
 	r.Stat("O3.element-write sites examined", len(o.Sites))
 	r.Floor("O3", "functions with a write-through summary", nSum, 100)
-	// the three reflective helpers must be recognised as writers (positive control of the summary computation)
+	// the two exported reflective helpers must be recognised as writers (positive control of the summary computation)
 	for _, want := range []struct {
 		name string
 		idx  int
-	}{{"CopyNonNilDataFromItemToItem", 1}, {"RemoveElementFromItem", 0}, {"updateFields", 2}} {
+	}{{"CopyNonNilDataFromItemToItem", 1}, {"RemoveElementFromItem", 0}} {
 		found := false
 		for f, s := range o.sum {
 			if originName(f) == want.name && fnPkgPath(f) == repoMod+"/model" && s.Through[want.idx] {
